@@ -127,7 +127,9 @@ impl<'a> TypingContext<'a> {
     &self,
     identifier: PStr,
   ) -> Option<&NominalType> {
-    self.available_type_parameters.iter().find(|it| it.name == identifier).unwrap().bound.as_ref()
+    // A generic type that is not in scope (e.g. left over from a generic class used without type
+    // arguments, which has already been reported) has no bound.
+    self.available_type_parameters.iter().find(|it| it.name == identifier)?.bound.as_ref()
   }
 
   pub(crate) fn nominal_type_upper_bound(&'a self, type_: &'a Type) -> Option<&'a NominalType> {
